@@ -2,12 +2,14 @@ import Driver.Util
 import Driver.SyncEngine
 import Driver.ExecEngine
 import Driver.LedgerEngine
+import Driver.MerkleEngine
 
 def main (args : List String) : IO UInt32 := do
   let stdin ← IO.getStdin
   let stdout ← IO.getStdout
   match args with
   | ["sync"] => Driver.loop stdin stdout Driver.SyncEngine.step (); return 0
+  | ["merkle"] => Driver.loop stdin stdout Driver.MerkleEngine.step (); return 0
   | ["ledger"] => Driver.loop stdin stdout Driver.LedgerEngine.step {}; return 0
   | ["exec"] => Driver.loop stdin stdout Driver.ExecEngine.step {}; return 0
   | _ => IO.eprintln "usage: bxhmodel <engine>"; return 2
